@@ -20,6 +20,10 @@ let input_of = function
   | L [A "create"; ps; ts; rf; md; amd; force] ->
     M.ICreate (List.map posting_of (lst ps), (if atom ts = "nil" then None else Some (zarg ts)), str rf, meta_of md,
                List.map (function L [a; m] -> (str a, meta_of m) | _ -> failwith "bad accmeta") (lst amd), bool_of force)
+  | L [A "script"; ps; ts; rf; md; amd; force; smd; samd] ->
+    let accmeta x = List.map (function L [a; m] -> (str a, meta_of m) | _ -> failwith "bad accmeta") (lst x) in
+    M.IScript (List.map posting_of (lst ps), (if atom ts = "nil" then None else Some (zarg ts)), str rf, meta_of md,
+               accmeta amd, bool_of force, meta_of smd, accmeta samd)
   | L [A "revert"; id; force; ateff; md] -> M.IRevert (zarg id, bool_of force, bool_of ateff, meta_of md)
   | L [A "setmeta"; t; md] -> M.ISetMeta (target_of t, meta_of md)
   | L [A "delmeta"; t; k] -> M.IDelMeta (target_of t, str k)
@@ -48,6 +52,7 @@ let err_name = function
   | M.EInsufficientFunds -> "insufficient_funds" | M.EReferenceConflict -> "reference_conflict"
   | M.EIdempotencyInput -> "idempotency_input" | M.EAlreadyReverted -> "already_reverted"
   | M.ENotFound -> "not_found" | M.ENoPostings -> "no_postings"
+  | M.EMetadataOverride -> "metadata_override"
 
 let result_sx = function
   | M.ROk (l, t, hit) -> L [A "ok"; zout l; optz t; b01 hit]
@@ -106,6 +111,7 @@ let http_err = function
   | M.EInsufficientFunds -> "400:INSUFFICIENT_FUND" | M.EReferenceConflict -> "409:CONFLICT"
   | M.EIdempotencyInput -> "400:VALIDATION" | M.EAlreadyReverted -> "400:ALREADY_REVERT"
   | M.ENotFound -> "404:NOT_FOUND" | M.ENoPostings -> "400:NO_POSTINGS"
+  | M.EMetadataOverride -> "400:METADATA_OVERRIDE"
 let result_sx_http = function
   | M.ROk (_, t, hit) -> L [A "ok"; optz t; b01 hit]
   | M.RErr e -> L [A "err"; S (http_err e)]
@@ -124,7 +130,8 @@ let run_hist_http = function
 let () = register "histh" run_hist_http
 
 (* the v1 API maps a request without postings to VALIDATION *)
-let http1_err = function M.ENoPostings -> "400:VALIDATION" | e -> http_err e
+(* ... and so does its script path for a metadata override (the v1 harness sends script creates through it) *)
+let http1_err = function M.ENoPostings | M.EMetadataOverride -> "400:VALIDATION" | e -> http_err e
 let () = register "histh1" (function
   | L [A "histh1"; feat; L ops] ->
     let f = features_of feat in
